@@ -48,6 +48,8 @@ def _datasets(tier):
 
 def cases(tier, seed):
     out = [('select', d) for d in _datasets(tier)]
+    # data on which some candidate can be fitted but scores nan (it must lose, not win)
+    out += [('select', ('int8span', 0.0, 1.0, 60)), ('select', ('underflow', 0.0, 1.0, 100))]
     for form in GM_FORMS:
         for t in (0, 1):
             out.append(('gm', form, t))
